@@ -228,3 +228,154 @@ Example C16_source_tie_runs :
     tms_of r = Ok t /\ List.length (t_matrices t) = 17%nat /\
     gen_TileMatrixSet_MarshalJSON r = Ok (encodeTMS t) /\ decodeTMS (encodeTMS t) = Ok t.
 Proof. exact source_tie_runs. Qed.
+
+
+(** ** Source tie of the LOADERS (tie G2): how a built-in tile matrix set reaches the rest of the code.
+    tms20.LoadEmbeddedTileMatrixSet -- with its package-level cache, a map from ids to pointers -- and
+    tms20.LoadJSONTileMatrixSet are REGENERATED on every run into gen/TmsLoadGen.v (translator/tmsload.go; reading of the Go
+    constructs: Tms/GoLoad.v) as functions of an abstract file system (a finite map from file names to contents; ReadFile of an
+    unknown name is an error) and of the STATE (the cache, an association list); the embedded file system [gen_embedded_fs]
+    and the list of ids [gen_embedded_ids] are regenerated from the listing of the directory the `//go:embed` pattern
+    names (a document added there is covered without touching anything), the constant extJSON and the directory literal
+    are read from the source.  The decoding inside a load is the regenerated [gen_TileMatrixSet_UnmarshalJSON] (above).
+    The hand-written model is Tms/ModelLoad.v: [load_embedded_model fs id] = [decodeTMS] of the document the file system
+    holds under path.Join("tilematrixsets", id + ".json"), an error when there is none -- no cache, no history.
+    MODELLED (trusted; each mapped only after its exact shape was checked in the AST, list at the top of gen/TmsLoadGen.v):
+    embed.FS / os ReadFile as a finite map; the text -> tree step of encoding/json (a file content is [Doc j] or [NotJson]:
+    the documents of gen/TmsData.v are already parsed terms); json.Unmarshal's dispatch to the UnmarshalJSON method of a
+    pointer to TileMatrixSet (the method's declaration is checked); path.Join / path.Clean (Cli/Model.v); Go maps with
+    string keys (lookup in comma-ok form, assignment); the cache variable is checked to be mentioned nowhere else in
+    package tms20; calls are sequential (the map is unguarded: concurrent first loads would be a data race -- outside the
+    model; the tool loads one set, once, before any goroutine starts). *)
+From Texel Require Import Tms.GoLoad Tms.ModelLoad Tms.ProofsGenLoad.
+From Texel.Gen Require Import TmsLoadGen.
+Open Scope string_scope.
+
+(** CACHE TRANSPARENCY.  For every file system and EVERY finite sequence of ids loaded one after the other from the empty
+    cache ([run_loads]: each call on the state the previous one left): the results are, one by one, what a load from the
+    empty cache returns for that id -- identical regenerated structs, sharing flag included -- and, read back as the model's
+    values ([res_tms] = [tms_of] of the returned struct), they are the model's: [decodeTMS] of the file of that id, or an
+    error (unknown name, bytes that are not JSON, a document that does not decode).  The history does not matter. *)
+Theorem C16_source_tie_load_embedded : forall fs ids,
+  fst (run_loads (gen_LoadEmbeddedTileMatrixSet fs) [] ids) = map (fun id => fst (gen_LoadEmbeddedTileMatrixSet fs [] id)) ids /\
+  map res_tms (fst (run_loads (gen_LoadEmbeddedTileMatrixSet fs) [] ids)) = map (load_embedded_model fs) ids.
+Proof. exact load_embedded_transparent. Qed.
+Print Assumptions C16_source_tie_load_embedded.
+
+(** the same, said for one more load after any history ([after fs history] = the cache that history leaves) *)
+Theorem C16_source_tie_load_embedded_after_history : forall fs history id,
+  fst (gen_LoadEmbeddedTileMatrixSet fs (after fs history) id) = fst (gen_LoadEmbeddedTileMatrixSet fs [] id) /\
+  res_tms (fst (gen_LoadEmbeddedTileMatrixSet fs (after fs history) id)) = load_embedded_model fs id.
+Proof. exact load_embedded_after_history. Qed.
+Print Assumptions C16_source_tie_load_embedded_after_history.
+
+(** what a call does to the cache, from ANY state: a load that does not succeed leaves it unchanged; a successful one
+    leaves it unchanged (a hit) or adds the single entry (id, the returned struct) *)
+Theorem C16_source_tie_load_embedded_state : forall fs st id,
+  match fst (gen_LoadEmbeddedTileMatrixSet fs st id) with
+  | Ok l => snd (gen_LoadEmbeddedTileMatrixSet fs st id) = st \/ snd (gen_LoadEmbeddedTileMatrixSet fs st id) = (id, ld_value l) :: st
+  | _ => snd (gen_LoadEmbeddedTileMatrixSet fs st id) = st
+  end.
+Proof. exact load_embedded_state. Qed.
+Print Assumptions C16_source_tie_load_embedded_state.
+
+(** the invariant (by induction over the history): the cache only ever holds correctly decoded sets, each under its id
+    the decode of the file of THAT id *)
+Theorem C16_source_tie_load_embedded_cache_invariant : forall fs history id t,
+  cache_get (after fs history) id = (Some t, true) ->
+  exists j m, fs_find fs (embedded_file_name id) = Some (Doc j) /\ decodeTMS j = Ok m /\ tms_of t = Ok m.
+Proof. exact load_embedded_cache_invariant. Qed.
+Print Assumptions C16_source_tie_load_embedded_cache_invariant.
+
+(** a load never panics: the nil pointer the map yields for an absent id is never dereferenced, decoding is total *)
+Theorem C16_source_tie_load_embedded_no_panic : forall fs history id,
+  fst (gen_LoadEmbeddedTileMatrixSet fs (after fs history) id) <> Panic /\
+  fst (gen_LoadEmbeddedTileMatrixSet fs (after fs history) id) <> ErrorOrPanic.
+Proof. exact load_embedded_no_panic. Qed.
+Print Assumptions C16_source_tie_load_embedded_no_panic.
+
+(** EVERY BUILT-IN SET: for each id of the regenerated list (the files the embed pattern matches, directory and extension
+    taken off -- a finite domain swept by vm_compute through the regenerated loader and decoder, lifted by forallb_forall)
+    and after every history, the load succeeds with the model's value of that file ... *)
+Theorem C16_source_tie_load_embedded_builtin : forall id, In id gen_embedded_ids -> forall history,
+  exists t m,
+    fst (gen_LoadEmbeddedTileMatrixSet gen_embedded_fs (after gen_embedded_fs history) id) = Ok (MkLoaded t (Some id)) /\
+    tms_of t = Ok m /\ load_embedded_model gen_embedded_fs id = Ok m.
+Proof. exact load_embedded_builtin. Qed.
+Print Assumptions C16_source_tie_load_embedded_builtin.
+
+(** ... the regenerated ids are exactly the names of the documents of gen/TmsData.v (which C14, C15 and
+    C16_builtin_roundtrip sweep), and under each name the load gives the model's decode of THAT document *)
+Theorem C16_source_tie_load_embedded_builtin_document :
+  gen_embedded_ids = map fst gen_tms_documents /\
+  forall id doc, In (id, doc) gen_tms_documents -> forall history,
+  exists t m,
+    fst (gen_LoadEmbeddedTileMatrixSet gen_embedded_fs (after gen_embedded_fs history) id) = Ok (MkLoaded t (Some id)) /\
+    tms_of t = Ok m /\ decodeTMS doc = Ok m.
+Proof. exact (conj (proj1 embedded_ids_are_tmsdata) load_embedded_builtin_document). Qed.
+Print Assumptions C16_source_tie_load_embedded_builtin_document.
+
+(** WGS1984Quad.json and WorldCRS84Quad.json carry the same "id" MEMBER (WorldCRS84Quad).  The cache is keyed by the id
+    the caller passes, i.e. by the FILE name: after every history each name yields the set of its own file, and the two
+    sets are different values with the same ID field *)
+Theorem C16_source_tie_load_embedded_same_id_member :
+  exists t1 t2,
+    (forall history, fst (gen_LoadEmbeddedTileMatrixSet gen_embedded_fs (after gen_embedded_fs history) "WGS1984Quad")
+                     = Ok (MkLoaded t1 (Some "WGS1984Quad"))) /\
+    (forall history, fst (gen_LoadEmbeddedTileMatrixSet gen_embedded_fs (after gen_embedded_fs history) "WorldCRS84Quad")
+                     = Ok (MkLoaded t2 (Some "WorldCRS84Quad"))) /\
+    gen_TileMatrixSet_ID t1 = "WorldCRS84Quad" /\ gen_TileMatrixSet_ID t2 = "WorldCRS84Quad" /\
+    gen_TileMatrixSet_Title t1 = "EPSG:4326 for the World" /\ gen_TileMatrixSet_Title t2 = "CRS84 for the World" /\
+    t1 <> t2.
+Proof. exact same_id_member_no_interference. Qed.
+Print Assumptions C16_source_tie_load_embedded_same_id_member.
+
+(** SHARING.  Go copies structs shallowly: `return *cached, nil` and `cache[id] = &tms; return tms, nil` hand out a struct
+    whose fields of reference type -- [gen_TileMatrixSet_reference_fields], regenerated from the declaration: Keywords,
+    OrderedAxes, CRS, BoundingBox, TileMatrices -- denote the same slices / map / pointees as the struct in the cache.  The
+    model has pure values, so it records the fact instead of its consequences: EVERY successful load, the first as well
+    as a hit, from any state, returns a value marked as sharing with the cache entry of its id, and that entry holds
+    exactly the returned struct after the call; an entry, once made, is never replaced, so all callers of one id hold
+    the same map.  What a later caller observes after an earlier one has WRITTEN through such a field (e.g. deleted a
+    key of TileMatrices) is OUTSIDE the model: the theorems above describe the loader under the obligation that no
+    caller does.  (On the real code the write is visible to the next caller -- checked; no function of /repo writes
+    through these fields of a loaded set -- checked by a scan of every assignment, delete, clear, copy and sort.) *)
+Theorem C16_source_tie_load_embedded_shared : forall fs st id l st',
+  gen_LoadEmbeddedTileMatrixSet fs st id = (Ok l, st') ->
+  ld_shares l = Some id /\ cache_get st' id = (Some (ld_value l), true).
+Proof. exact load_embedded_result_shared. Qed.
+Print Assumptions C16_source_tie_load_embedded_shared.
+
+Theorem C16_source_tie_load_embedded_entry_persists : forall fs st id t id',
+  cache_get st id = (Some t, true) -> cache_get (snd (gen_LoadEmbeddedTileMatrixSet fs st id')) id = (Some t, true).
+Proof. exact load_embedded_entry_persists. Qed.
+Print Assumptions C16_source_tie_load_embedded_entry_persists.
+
+(** LoadJSONTileMatrixSet(path) over an abstract os.ReadFile: the model's decode of the file or an error, never a panic,
+    no package state read or written (the regenerated function has no cache argument: st : unit), and the value is FRESH *)
+Theorem C16_source_tie_load_json : forall fs path,
+  res_tms (fst (gen_LoadJSONTileMatrixSet fs tt path)) = load_json_model fs path /\
+  (forall l, fst (gen_LoadJSONTileMatrixSet fs tt path) = Ok l -> ld_shares l = None) /\
+  fst (gen_LoadJSONTileMatrixSet fs tt path) <> Panic /\ fst (gen_LoadJSONTileMatrixSet fs tt path) <> ErrorOrPanic.
+Proof. exact load_json_tie. Qed.
+Print Assumptions C16_source_tie_load_json.
+
+(** the regenerated loader runs, and the hypotheses above are met by a non-trivial state: a file system with a good
+    document, bytes that are not JSON and a document that does not decode; eight loads (error, ok, unknown name, error, a
+    hit returning the identical value, and ids that path.Join cleans: "./a", "x/../a" reach the file of "a" under cache
+    keys of their own, "../a" leaves the directory and fails -- the same on the real code); the cache ends with the three
+    successful ids *)
+Example C16_source_tie_load_runs :
+  let fs := [("tilematrixsets/a.json", Doc gen_doc_NetherlandsRDNewQuad); ("tilematrixsets/b.json", NotJson);
+             ("tilematrixsets/c.json", Doc (JObj []))] in
+  let r := run_loads (gen_LoadEmbeddedTileMatrixSet fs) [] ["b"; "a"; "zz"; "c"; "a"; "./a"; "x/../a"; "../a"] in
+  map (fun o => match o with Ok _ => 0%nat | Error => 1%nat | _ => 2%nat end) (fst r) = [1; 0; 1; 1; 0; 0; 0; 1]%nat /\
+  map fst (snd r) = ["x/../a"; "./a"; "a"] /\
+  nth_error (fst r) 1 = nth_error (fst r) 4 /\
+  embedded_file_name "x/../a" = "tilematrixsets/a.json" /\ embedded_file_name "../a" = "a.json" /\
+  embedded_file_name "/a" = "tilematrixsets/a.json".
+Proof. exact load_runs. Qed.
+
+Example C16_source_tie_load_reference_fields :
+  gen_TileMatrixSet_reference_fields = ["Keywords"; "OrderedAxes"; "CRS"; "BoundingBox"; "TileMatrices"].
+Proof. exact reference_fields_now. Qed.
